@@ -128,3 +128,44 @@ Proof.
   split; [vm_compute; reflexivity|]. split; [vm_compute; reflexivity|].
   split; [vm_compute; reflexivity|]. split; [vm_compute; reflexivity|]. vm_compute. reflexivity.
 Qed.
+
+(* with the syntactic hypothesis of Dep/AnnTypes.v instead of ann_deps_ok *)
+From Sylt Require Import Dep.AnnTypes.
+
+Theorem resolver_order_backend_types2 fl tgt fuel req ast r1 r2 l1 :
+  resolve fl ast = Resolver.Ok r1 ->
+  resolve fl (erase_all_annotations ast) = Resolver.Ok r2 ->
+  ann_types_only tgt (r_stmts r1) = true -> ann_types_only tgt (r_stmts r2) = true ->
+  init_order tgt (r_stmts r1) = OOk l1 ->
+  exists l2, init_order tgt (r_stmts r2) = OOk l2
+    /\ Emit.backend fuel req (mkResolved (r_vars r1) l1) = Emit.backend fuel req (mkResolved (r_vars r2) l2).
+Proof.
+  intros R1 R2 O1 O2 H1. apply (resolver_order_backend_erase fl tgt fuel req ast r1 r2 l1 R1 R2); auto using ann_types_only_deps_ok.
+Qed.
+
+(* ... and the erased side needs no hypothesis (Resolve/AnnErasePost.v) *)
+From Sylt Require Import Resolve.AnnErasePost.
+
+Theorem resolver_order_backend_types fl tgt fuel req ast r1 r2 l1 :
+  resolve fl ast = Resolver.Ok r1 ->
+  resolve fl (erase_all_annotations ast) = Resolver.Ok r2 ->
+  ann_types_only tgt (r_stmts r1) = true ->
+  init_order tgt (r_stmts r1) = OOk l1 ->
+  exists l2, init_order tgt (r_stmts r2) = OOk l2
+    /\ Emit.backend fuel req (mkResolved (r_vars r1) l1) = Emit.backend fuel req (mkResolved (r_vars r2) l2).
+Proof.
+  intros R1 R2 O1 H1. apply (resolver_order_backend_types2 fl tgt fuel req ast r1 r2 l1 R1 R2 O1); [|exact H1].
+  exact (erased_ann_types_only fl implied implied tgt ast r2 R2).
+Qed.
+
+(* the dependency order gives the same verdict, with the one hypothesis *)
+Theorem resolver_order_verdict_types fl tgt ast r1 r2 :
+  resolve fl ast = Resolver.Ok r1 ->
+  resolve fl (erase_all_annotations ast) = Resolver.Ok r2 ->
+  ann_types_only tgt (r_stmts r1) = true ->
+  onf (initialization_order tgt (r_stmts r1)) = onf (initialization_order tgt (r_stmts r2)).
+Proof.
+  intros R1 R2 O1. destruct (resolve_erase_all fl ast r1 R1) as (r' & E & S). rewrite E in R2. inversion R2; subst.
+  apply order_verdict_erase_types; [exact S|exact O1|].
+  exact (erased_ann_types_only fl implied implied tgt ast r2 E).
+Qed.
